@@ -11,6 +11,7 @@ cd "$HERE" || exit 1
 git -C /repo worktree add -q --detach "$WT" HEAD || exit 1
 fail=0
 for f in selftest/patches/${1:-}*.diff; do
+  [ -n "$ONLY_REFACTORS" ] && continue
   [ -f "$f" ] || continue
   pid=$(basename "$f" | cut -d_ -f1)
   [ -f "props/$pid.py" ] || { echo "SKIP $(basename "$f") (no check for $pid)"; continue; }
